@@ -421,3 +421,73 @@ pub fn finish_run(
     res.log_hash = f.0;
     res
 }
+
+// ---------------------------------------------------------------------------------------------
+// deferred settlement: the value of an evaluation is digested and released later, possibly by
+// another thread (exercises the hand-written Send/Sync of Object)
+
+pub struct Pending {
+    pub eval_id: u64,
+    pub value: Object,
+}
+
+pub fn finish_run_defer(r: std::thread::Result<Result<Object, Error>>, eval_id: u64) -> (RunResult, Option<Pending>) {
+    CTX.with(|c| {
+        let mut ctx = c.borrow_mut();
+        ctx.active = false;
+        ctx.in_gc = false;
+        ctx.sched = None;
+    });
+    let (outcome, value) = classify(r);
+    let res = CTX.with(|c| {
+        let mut ctx = c.borrow_mut();
+        RunResult {
+            outcome,
+            out: std::mem::take(&mut ctx.out),
+            injected: ctx.injected.clone(),
+            findings: std::mem::take(&mut ctx.findings),
+            stats: ctx.stats.clone(),
+            log_hash: ctx.fold.0,
+            steps: ctx.step,
+            crash_state: ctx.crash_state.take(),
+            effects: ctx.effects,
+            effect_steps: std::mem::take(&mut ctx.effect_steps),
+            shapes: ctx.shapes.iter().cloned().collect(),
+            trace_lines: std::mem::take(&mut ctx.trace_lines),
+            result_objects: 0,
+        }
+    });
+    match value {
+        Some(v) => (res, Some(Pending { eval_id, value: v })),
+        None => {
+            let mut sh = shadow::lock();
+            sh.reset_owner(eval_id);
+            drop(sh);
+            alloc::flush_parked();
+            (res, None)
+        }
+    }
+}
+
+/// Digest, release and forget the value of an evaluation (on whichever thread calls this).
+pub fn settle(p: Pending) -> (String, Vec<Finding>) {
+    let mut findings = Vec::new();
+    let mut dead = Vec::new();
+    let text = render_value(p.value, &mut dead);
+    for d in dead {
+        findings.push(Finding {
+            class: "result-invalid".into(),
+            key: d.split('#').next().unwrap_or("?").to_string(),
+            detail: format!("the returned value contains {} which is not allocated any more", d),
+        });
+    }
+    let graph = graph_of(p.value);
+    release_graph(&graph);
+    let hook = CTX.with(|c| std::mem::take(&mut c.borrow_mut().findings));
+    findings.extend(hook);
+    let mut sh = shadow::lock();
+    sh.reset_owner(p.eval_id);
+    drop(sh);
+    alloc::flush_parked();
+    (text, findings)
+}
